@@ -148,7 +148,8 @@ PROPS = {
     'C09': dict(
         vx_units=['inodes', 'ptlookup'], kx=[],
         # C09 is decided through the obligations of the lookup / forget side of C08 (same functions, same clauses): a failure of one of these counts for C09 as well
-        alias=[r'^C08\.lookup\.', r'^C08\.forget\.', r'^C08\.map\.', r'^C08\.ino\.', r'^C08\.store\.remove\.keep', r'\.(cas|add|insert|seq)$', r'^(inodes|ptlookup)\.(do_lookup|forget_one)\.'],
+        # (readdirplus is named in C09's quantifier: its callback takes one reference per entry and gives back the undelivered one - seed C09-f)
+        alias=[r'^C08\.lookup\.', r'^C08\.forget\.', r'^C08\.map\.', r'^C08\.ino\.', r'^C08\.store\.remove\.keep', r'^C08\.readdirplus\.', r'\.(cas|add|insert|seq)$', r'^(inodes|ptlookup)\.(do_lookup|forget_one)\.'],
         design_ref='DESIGN.md A.4',
         not_covered=[
             'the linearisation argument that composes the per-step obligations into "the outcome equals some sequential order" is NOT mechanised (it is the standard one: every change of a count is one atomic compare-exchange / fetch_add whose guard is re-validated by that very step or by the write lock)',
@@ -175,12 +176,15 @@ PROPS = {
                  'write / writev / pwrite on /dev/fuse are all-or-nothing (fuse_dev_do_write); Vec capacity/base uninterpreted with len <= capacity; Vec::set_len by assume_specification; std Write::write_all as a hand copy of the std text'],
     ),
     'C17': dict(
-        vx_units=['iobuffers', 'virtiofsw', 'virtiofsw_async', 'writerenum', 'readerrd'], kx=[],
-        alias=[r'^C04\.writer\.', r'^C20\.writer\.'],      # the Writer enum hands the operation to the wrapped writer unchanged (a wrong forward loses or misplaces the marking)
+        vx_units=['iobuffers', 'virtiofsw', 'virtiofsw_async', 'writerenum', 'readerrd', 'filebuf'], kx=[],
+        # the Writer enum hands the operation to the wrapped writer unchanged (a wrong forward loses or misplaces the marking); the file READ functions of unit
+        # filebuf fill guest memory and REPORT how much - the writer marks exactly what they report, so a read that fills more than it reports (seed C17-f:
+        # the async vectored read returning early with a smaller count after all four buffers were filled) leaves modified memory clean
+        alias=[r'^C04\.writer\.', r'^C20\.writer\.', r'^filebuf\.(async_)?read_', r'^C04\.ftraits\.([a-z]+\.)?(async_)?read_'],
         design_ref='DESIGN.md A.4',
         not_covered=[
             'contents of the guest memory written by write_vectored / write_obj (the contract of write exports the addresses, not the bytes); the chain-length invariant bytes_consumed + available <= usize::MAX is now ESTABLISHED by the constructors (unit readerrd: length_fits) and remains a hypothesis of the per-operation clauses',
-            'async_write_all (std write_all over write); Reader::async_read_to_at / prepare_io_buf (reads; never mark); that the AsyncFileReadWriteVolatile impl for File (io-uring) fills exactly the reported prefix (assumed)',
+            'async_write_all (std write_all over write); Reader::async_read_to_at / prepare_io_buf (reads; never mark); the AsyncFileReadWriteVolatile / FileReadWriteVolatile impls for File fill exactly the reported prefix: proved in unit filebuf over the model of async_file.rs / the host calls (counted for C17 by alias)',
             'the counter-overflow error path of mark_used after marking',
             'page granularity of the real bitmap (the model is byte granular; pages are the monotone image of bytes); concurrency',
         ],
